@@ -45,12 +45,15 @@ def parseDecider : Sexp → Option Decider
   | list [atom k, d] => do
       let kind ← match k with
         | "grow" => some DKind.grow | "full" => some .full | "pigrow" => some .pigrow
-        | "progressive" => some .progressive | _ => none
+        | "progressive" => some .progressive | "dsge" => some .dsge | _ => none
       pure { kind := kind, maxDepth := ← d.asNat? }
   | _ => none
 
-def mkSt (draws : List Nat) (expanding : Bool := true) : SynSt :=
-  { src := { draws := draws, pos := 0 }, expanding := expanding }
+def mkSynSt (draws : List Nat) (expanding : Bool := true) : SynSt :=
+  { src := .scripted { draws := draws, pos := 0 }, expanding := expanding }
+
+def mkGeneSt (dna : List Int) (expanding : Bool := true) : SynSt :=
+  { src := .gene { dna := dna, index := 0 }, expanding := expanding }
 
 def resSx {α : Type} (f : α → Sexp) : Res α → Sexp
   | .ok a _ => list [atom "ok", f a]
